@@ -88,8 +88,8 @@ def check(item, tier):
         opt = F(rmax).limit_denominator(1000) / (1 - spec.gamma)
         acts = spec.acts[0]
         for (m, episodes) in cfgs:
-            diff = 1e-5
-            ctx = {'m': m, 'episodes': episodes, 'rmax': rmax}
+            diff = [1e-5, 1e-8, 1e-3][(m + 2 * episodes + li) % 3]     # configured planning tolerance rotates
+            ctx = {'m': m, 'episodes': episodes, 'rmax': rmax, 'bellman_convergence_diff': diff}
             log = []
 
             class Listener(rm.RMAXEventListener):
